@@ -103,6 +103,15 @@ Theorem C07_enum_accepted : forall e, verdict_d (compile_enum e) = VOk.
 Proof. exact enum_accepted. Qed.
 Print Assumptions C07_enum_accepted.
 
+(* topics of every type with any number of messages, and the shells of objects (entity parts or not)
+   and oneofs, are accepted and link alone *)
+Theorem C07_topic_accepted : forall t, verdict_d (compile_topic t) = VOk.
+Proof. exact topic_accepted. Qed.
+Print Assumptions C07_topic_accepted.
+Theorem C07_object_shell_accepted : forall entity, verdict_d (compile_object_shell entity) = VOk.
+Proof. exact object_shell_accepted. Qed.
+Print Assumptions C07_object_shell_accepted.
+
 (* services: full statement *)
 Definition C07_service_full_statement : Prop :=
   forall sv, service_in_language sv = true -> verdict_d (compile_service sv) = VOk.
